@@ -57,6 +57,9 @@ def grid_ops():
                              # a key named more than once: whatever a plain Client sends for it, the wrappers send too
                              (1, [(b"a", b"1"), (b"b", b"2")], e, False, f), (7, False, [b"b", b"a", b"b"]), (8, True, [b"a", b"a"]),
                              (7, True, [b"a", b"zz", b"a", b"b"]), (10, False, [b"a", b"a"], False)])
+    # text values: what `encoding` (and only `encoding`) does to them, under every combination of the other options
+    seqs.append([(0, 0, b"k", "\xe9t\xe9", 0, False, None), (3, b"k", None), (0, 0, b"k", "text", 0, False, None), (3, b"k", None),
+                 (1, [(b"a", "\xe9"), (b"b", "plain")], 0, False, None), (7, False, [b"a", b"b"]), (0, 3, b"k", "\u20ac", 0, False, None), (2, b"k", "\xe9", b"1", 0, False, None)])
     return seqs
 
 
